@@ -171,6 +171,25 @@ class Layout:
         self.desc.append("malformed(%s)" % kind)
 
     # ---- output ----
+    def concretize(self, keep):
+        """replace every class code not in `keep` by a representative literal of its class (keys and
+        section names stay symbolic when the layout relates spans by equality)"""
+        has_eq = any(r[4] for r in self.rels)
+        reps_other = "0123456789ACDEFGIJLNOPQRTUYZ"   # never a class code letter
+        nb_delim = [c for c in self.delim if c not in " \t"]
+        out = []
+        for p, ch in enumerate(self.tpl):
+            if ch not in "KkVWvqcSsbBdhmnMx" or ch in keep or (has_eq and ch in "KkSs"):
+                out.append(ch); continue
+            if ch in "bB": out.append(" " if (" " in self.delim or ch == "b") else "\t")
+            elif ch == "d": out.append(nb_delim[0])
+            elif ch == "h": out.append(self.comment[0])
+            else:
+                r = reps_other[(p * 7) % len(reps_other)]
+                out.append(r)
+        self.tpl = "".join(out)
+        return self
+
     def header(self, opts="", extra_defs=()):
         L = []
         n = len(self.tpl)
@@ -202,6 +221,10 @@ class Layout:
         L.append("static const struct span SEC[NSEC + 1] = {%s%s{0,0}};" % (",".join("{%d,%d}" % s for s in self.secs), "," if self.secs else ""))
         L.append("#define NREL %d" % len(self.rels))
         L.append("static const struct rel REL[NREL + 1] = {%s%s{0,0,0,0,0}};" % (",".join("{%d,%d,%d,%d,%d}" % r for r in self.rels), "," if self.rels else ""))
+        ends = [i + 1 for i, ch in enumerate(self.tpl) if ch == "\n"]
+        if n and not self.tpl.endswith("\n"): ends.append(n)
+        L.append("#define NLINES %d" % len(ends))
+        L.append("static const short LINE_ENDS[NLINES + 1] = {%s%s0};" % (",".join(str(e) for e in ends), "," if ends else ""))
         if self.err:
             L.append("#define EXPECT_ERR %d\n#define ERR_LINE %d" % self.err)
         else:
